@@ -87,6 +87,18 @@ func buildPhi(c *mc.Ctx) (all, clear []*ph) {
 	return
 }
 
+// garbage is a receiver that "held something else": every limb at the top of the headroom.
+var garbage = func() field.Element {
+	l := make([]uint64, nl)
+	for i := range l {
+		l[i] = fullCorners().ev[len(fullCorners().ev)-1]
+		if i&1 == 1 {
+			l[i] = fullCorners().od[len(fullCorners().od)-1]
+		}
+	}
+	return field.VerifC04FromLimbs(l)
+}()
+
 func values(c *mc.Ctx) {
 	all, phi := buildPhi(c)
 	n := len(phi)
@@ -99,12 +111,6 @@ func values(c *mc.Ctx) {
 		ck := chk{w, s}
 		p := all[i]
 		cas := func() interface{} { return map[string]string{"bytes": mc.Hex(p.b[:])} }
-		var fe field.Element
-		ret, err := fe.SetBytes(p.b[:])
-		if err != nil || ret != &fe {
-			w.Fail("SetBytes/accept", fmt.Sprintf("SetBytes(%x) err=%v", p.b, err), cas())
-			return
-		}
 		switch {
 		case p.b[31]&0x80 != 0:
 			w.Eval("setbytes/bit255", true)
@@ -112,6 +118,19 @@ func values(c *mc.Ctx) {
 			w.Eval("setbytes/noncanonical", true)
 		default:
 			w.Eval("setbytes/canonical", false)
+		}
+		w.Eval("invert-value", p.v.Sign() != 0)
+		w.Eval("invsqrt", true)
+		// the receiver held something else before (T3): nothing of it may survive a decode
+		fe := garbage
+		in := p.b
+		ret, err := fe.SetBytes(in[:])
+		if err != nil || ret != &fe {
+			w.Fail("SetBytes/accept", fmt.Sprintf("SetBytes(%x) err=%v", p.b, err), cas())
+			return
+		}
+		if in != p.b {
+			w.Fail("SetBytes/modifies-input", fmt.Sprintf("SetBytes changed its input %x -> %x", p.b, in), cas())
 		}
 		ck.val("SetBytes", &fe, p.v, bStrict, cas)
 		// round trip: canonical strings re-encode to themselves, all others to the reduced value
@@ -125,6 +144,27 @@ func values(c *mc.Ctx) {
 		if ref.FromLE(out[:]).Cmp(P) >= 0 {
 			w.Fail("ToBytes/canonical", fmt.Sprintf("ToBytes produced %x >= p", out), cas())
 		}
+		// arguments that are sub-slices of a larger caller buffer with spare capacity (T1): decode from the middle, encode
+		// into the middle; the result is the same and the guard bytes on both sides survive
+		var ib, ob [48]byte
+		for k := range ib {
+			ib[k], ob[k] = 0xa5, 0x5a
+		}
+		copy(ib[5:37], p.b[:])
+		fe2 := garbage
+		if _, err := fe2.SetBytes(ib[5:37]); err != nil {
+			w.Fail("SetBytes/sub-slice", err.Error(), cas())
+		}
+		ck.sameAs("SetBytes/sub-slice", &fe2, &fe, cas)
+		if err := fe.ToBytes(ob[7:39]); err != nil || !bytes.Equal(ob[7:39], out[:]) {
+			w.Fail("ToBytes/sub-slice", fmt.Sprintf("ToBytes into a sub-slice gives %x, want %x", ob[7:39], out), cas())
+		}
+		for k := range ib {
+			if (k < 5 || k >= 37) && ib[k] != 0xa5 || (k < 7 || k >= 39) && ob[k] != 0x5a || k >= 5 && k < 37 && ib[k] != p.b[k-5] {
+				w.Fail("SetBytes-ToBytes/guard", fmt.Sprintf("bytes outside the slices handed over were modified (in %x, out %x)", ib, ob), cas())
+				break
+			}
+		}
 		if got, want := fe.IsZero() == 1, p.v.Sign() == 0; got != want {
 			w.Fail("IsZero", fmt.Sprintf("IsZero(%x)=%v", p.b, got), cas())
 		}
@@ -136,7 +176,6 @@ func values(c *mc.Ctx) {
 		if inv.Invert(&fe) != &inv {
 			w.Fail("Invert/ret", "Invert does not return its receiver", cas())
 		}
-		w.Eval("invert-value", p.v.Sign() != 0)
 		ck.val("Invert", &inv, ref.FInv(p.v), bReduced, cas)
 		x := fe
 		x.Invert(&x)
@@ -147,7 +186,6 @@ func values(c *mc.Ctx) {
 		is := fe
 		_, flag := is.InvSqrt()
 		wf, wr := ref.SqrtRatioI(one, p.v)
-		w.Eval("invsqrt", true)
 		if (flag == 1) != wf {
 			w.Fail("InvSqrt/flag", fmt.Sprintf("InvSqrt(%x) flag=%d want %v", p.v, flag, wf), cas())
 		}
@@ -163,11 +201,14 @@ func values(c *mc.Ctx) {
 			ck.val("ConditionalNegate", &x, wv, bNone, cas)
 		}
 		// Set / Zero / One / MinusOne
-		var y field.Element
+		y := garbage
 		y.Set(&fe)
 		ck.val("Set", &y, p.v, bNone, cas)
+		y = garbage
 		ck.val("Zero", y.Zero(), zero, bStrict, cas)
+		y = garbage
 		ck.val("One", y.One(), one, bStrict, cas)
+		y = garbage
 		ck.val("MinusOne", y.MinusOne(), ref.FNeg(one), bStrict, cas)
 		if i%97 == 0 {
 			w.Sample(map[string]string{"op": "SetBytes/ToBytes/Invert/InvSqrt", "bytes": mc.Hex(p.b[:])})
@@ -217,6 +258,13 @@ func values(c *mc.Ctx) {
 			x.ConditionalSwap(&y, ch)
 			ck.val("ConditionalSwap/receiver", &x, want.v, bNone, cas)
 			ck.val("ConditionalSwap/other", &y, other.v, bNone, cas)
+			// receiver aliasing the first / the second operand
+			x = a.fe
+			x.ConditionalSelect(&x, &b.fe, ch)
+			ck.val("ConditionalSelect/alias(fe,fe,b)", &x, want.v, bNone, cas)
+			x = b.fe
+			x.ConditionalSelect(&a.fe, &x, ch)
+			ck.val("ConditionalSelect/alias(fe,a,fe)", &x, want.v, bNone, cas)
 		}
 		w.Eval("conditional", a.v.Cmp(b.v) != 0)
 		if i%1009 == 0 {
@@ -248,62 +296,181 @@ func values(c *mc.Ctx) {
 		chk{w, s}.val("SqrtRatioI", &r, wr, bReduced, cas)
 	})
 
-	// --- BatchInvert: every vector of length 0..maxLen over a small set containing two representations of zero
-	pick := []*ph{}
-	want := []string{"0", P.Text(16), "1", new(big.Int).Sub(P, one).Text(16), new(big.Int).Sub(two255, one).Text(16)}
-	for _, k := range want {
+	// --- BatchInvert (T5, T1).  Alphabet: zero in FOUR representations (the strings 0 and p, a limb form of k*p, and the
+	// zero the library itself produces as x + Neg(x)), 1, p-1, 2^255-1 (= 18), an unreduced 1 + p, generic values.
+	// All vectors of length 0..4 over the whole alphabet and all vectors of length 5 over {unreduced zero, canonical zero,
+	// 1, two generic}: a zero therefore occurs at EVERY index (index 0 included) and in every multiplicity, next to every
+	// kind of neighbour.  Oracle, as documented: "replaces each element by its inverse.  When an input Element is zero,
+	// its value is unchanged."
+	type bel struct {
+		fe   field.Element
+		v    *big.Int
+		inv  *big.Int
+		desc string
+	}
+	var pick []*bel
+	addB := func(fe field.Element, desc string) {
+		s := pool.Get().(*scratch)
+		v := new(big.Int).Mod(s.limbInt(field.VerifC04Limbs(&fe), new(big.Int)), P)
+		pool.Put(s)
+		pick = append(pick, &bel{fe, v, ref.FInv(v), desc})
+	}
+	for _, k := range []string{"0", P.Text(16), "1", new(big.Int).Sub(P, one).Text(16), new(big.Int).Sub(two255, one).Text(16)} {
 		for _, p := range phi {
 			if p.raw.Text(16) == k {
-				pick = append(pick, p)
+				addB(p.fe, "bytes "+mc.Hex(p.b[:]))
 			}
 		}
 	}
-	pick = append(pick, phi[n-1], phi[n-2]) // generic
-	if c.Thorough {
-		pick = append(pick, phi[n-3], phi[4], phi[40])
+	{
+		var n, z field.Element
+		n.Neg(&phi[2].fe)
+		z.Add(&phi[2].fe, &n) // 2 + Neg(2): the unreduced zero the library produces itself
+		addB(z, "2 + Neg(2)")
 	}
-	maxLen := 4
+	for _, e := range residueElements() {
+		if e.unred && e.v.Sign() == 0 {
+			addB(e.fe, "limbs "+e.hex()) // a limb form of k*p
+			break
+		}
+	}
+	for _, e := range residueElements() {
+		if e.unred && e.v.Cmp(one) == 0 {
+			addB(e.fe, "limbs "+e.hex()) // 1 + k*p
+			break
+		}
+	}
+	addB(phi[n-1].fe, "generic")
+	addB(phi[n-2].fe, "generic")
+	if c.Thorough {
+		addB(phi[n-3].fe, "generic")
+		addB(phi[40].fe, "bytes "+mc.Hex(phi[40].b[:]))
+	}
+	np := len(pick)
+	// the 5-element sub-alphabet for length 5: unreduced zero (x + Neg(x)), canonical zero, 1, two generic values
+	var five []*bel
+	for _, b := range pick {
+		if b.desc == "2 + Neg(2)" || b.desc == "generic" && len(five) < 5 {
+			five = append(five, b)
+		}
+	}
+	five = append(five, pick[0], pick[2])
 	offs, total := []int{}, 0
-	for l, p := 0, 1; l <= maxLen; l++ {
+	for l, p := 0, 1; l <= 4; l++ {
 		offs = append(offs, total)
 		total += p
-		p *= len(pick)
+		p *= np
 	}
-	sizes["batchinvert_alphabet"] = len(pick)
-	sizes["batchinvert_vectors"] = total
-	c.Par("phi-batchinvert", total, func(w *mc.W, i int) {
-		s := pool.Get().(*scratch)
-		defer pool.Put(s)
-		ck := chk{w, s}
-		l := 0
-		for l+1 < len(offs) && i >= offs[l+1] {
-			l++
-		}
-		j := i - offs[l]
-		vec := make([]*ph, l)
-		in := make([]*field.Element, l)
+	n5 := 1
+	for k := 0; k < 5; k++ {
+		n5 *= len(five)
+	}
+	sizes["batchinvert_alphabet"] = np
+	sizes["batchinvert_vectors"] = total + n5
+	runBatch := func(w *mc.W, s *scratch, vec []*bel) {
+		l := len(vec)
 		desc := ""
 		hasZero := false
-		for k := 0; k < l; k++ {
-			vec[k] = pick[j%len(pick)]
-			j /= len(pick)
-			fe := vec[k].fe
-			in[k] = &fe
-			desc += mc.Hex(vec[k].b[:]) + ","
+		for k := range vec {
+			desc += vec[k].desc + "; "
 			if vec[k].v.Sign() == 0 {
 				hasZero = true
 			}
 		}
-		cas := func() interface{} { return map[string]string{"inputs": desc} }
-		field.BatchInvert(in)
-		if hasZero {
+		switch {
+		case hasZero && vec[0].v.Sign() == 0 && l >= 2:
+			w.Eval("batchinvert/zero-at-index-0", true)
 			w.Eval("batchinvert/with-zero", true)
-		} else {
+		case hasZero:
+			w.Eval("batchinvert/with-zero", true)
+		default:
 			w.Eval("batchinvert/no-zero", l > 0)
 		}
+		in := make([]*field.Element, l)
+		for k := range vec {
+			fe := vec[k].fe
+			in[k] = &fe
+		}
+		cas := func() interface{} { return map[string]string{"inputs": desc} }
+		field.BatchInvert(in)
 		for k := 0; k < l; k++ {
-			// documented: "replaces each element by its inverse. When an input Element is zero, its value is unchanged."
-			ck.val(fmt.Sprintf("BatchInvert/elem(zero=%v)", vec[k].v.Sign() == 0), in[k], ref.FInv(vec[k].v), bNone, cas)
+			chk{w, s}.val(fmt.Sprintf("BatchInvert/elem(index=%d of %d, zero=%v)", k, l, vec[k].v.Sign() == 0), in[k], vec[k].inv, bNone, cas)
+		}
+	}
+	c.Par("phi-batchinvert", total+n5, func(w *mc.W, i int) {
+		s := pool.Get().(*scratch)
+		defer pool.Put(s)
+		var vec []*bel
+		if i < total {
+			l := 0
+			for l+1 < len(offs) && i >= offs[l+1] {
+				l++
+			}
+			j := i - offs[l]
+			for k := 0; k < l; k++ {
+				vec = append(vec, pick[j%np])
+				j /= np
+			}
+		} else {
+			j := i - total
+			for k := 0; k < 5; k++ {
+				vec = append(vec, five[j%len(five)])
+				j /= len(five)
+			}
+		}
+		runBatch(w, s, vec)
+	})
+	// The same element (the same pointer) more than once in the slice (T1).  The library documents nothing for this use
+	// and the unchanged tree does not support it in general (Montgomery's trick re-reads an input after an earlier
+	// occurrence has been overwritten: [q, p, p] corrupts q, [p, p, p] corrupts p; only [p, p] happens to work), so no
+	// value can be demanded without exceeding the documentation.  What is checked: the call terminates without a panic
+	// for every duplication pattern, and elements that are NOT in the slice are untouched.  (Recorded in notes/C04.md.)
+	patterns := [][]int{{0, 0}, {0, 1, 0}, {0, 0, 1}, {1, 0, 0}, {0, 0, 0}, {0, 1, 0, 1}, {0, 1, 1, 0}}
+	c.Par("phi-batchinvert-alias", len(patterns)*np*np, func(w *mc.W, i int) {
+		s := pool.Get().(*scratch)
+		defer pool.Put(s)
+		pat := patterns[i/(np*np)]
+		src := []*bel{pick[i%np], pick[(i/np)%np], pick[(i+3)%np]}
+		w.Eval("batchinvert/aliased", true)
+		objs := []field.Element{src[0].fe, src[1].fe, src[2].fe}
+		in := make([]*field.Element, len(pat))
+		for k, o := range pat {
+			in[k] = &objs[o]
+		}
+		field.BatchInvert(in)
+		// object 2 is never part of the slice
+		chk{w, s}.val("BatchInvert/alias(bystander)", &objs[2], src[2].v, bNone, func() interface{} {
+			return map[string]string{"pattern": fmt.Sprint(pat)}
+		})
+	})
+	// nil and empty slices
+	c.Par("phi-batchinvert-empty", 2, func(w *mc.W, i int) {
+		w.Eval("batchinvert/empty", false)
+		if i == 0 {
+			field.BatchInvert(nil)
+		} else {
+			field.BatchInvert([]*field.Element{})
+		}
+	})
+
+	// --- SqrtRatioI / Equal with unreduced representations on one side and Phi values on the other (T5)
+	res := residueElements()
+	var coreS []*ph
+	for i, p := range phi {
+		if i < 40 || i%11 == 0 {
+			coreS = append(coreS, p)
+		}
+	}
+	sizes["residue_x_phi"] = []int{len(res), len(coreS)}
+	c.Par("residue-sqrt", len(res)*len(coreS), func(w *mc.W, i int) {
+		s := pool.Get().(*scratch)
+		defer pool.Put(s)
+		ck := chk{w, s}
+		e, p := res[i/len(coreS)], coreS[i%len(coreS)]
+		sqrtCase(ck, &e.fe, &p.fe, e.v, p.v, func() interface{} { return map[string]string{"u_limbs": e.hex(), "v": mc.Hex(p.b[:])} })
+		sqrtCase(ck, &p.fe, &e.fe, p.v, e.v, func() interface{} { return map[string]string{"u": mc.Hex(p.b[:]), "v_limbs": e.hex()} })
+		if got, want := e.fe.Equal(&p.fe) == 1, e.v.Cmp(p.v) == 0; got != want || (p.fe.Equal(&e.fe) == 1) != want {
+			w.Fail("Equal", fmt.Sprintf("Equal(limbs %s, %x) = %v, values %x and %x", e.hex(), p.b, got, e.v, p.v), nil)
 		}
 	})
 
@@ -336,12 +503,6 @@ func values(c *mc.Ctx) {
 		defer pool.Put(s)
 		b := wide[i]
 		cas := func() interface{} { return map[string]string{"bytes": mc.Hex(b)} }
-		var fe field.Element
-		ret, err := fe.SetBytesWide(b)
-		if err != nil || ret != &fe {
-			w.Fail("SetBytesWide/accept", fmt.Sprintf("SetBytesWide(%x) err=%v", b, err), cas())
-			return
-		}
 		if b[31]&0x80 != 0 {
 			w.Eval("wide/bit255", true)
 		}
@@ -349,14 +510,35 @@ func values(c *mc.Ctx) {
 			w.Eval("wide/bit511", true)
 		}
 		w.Eval("wide", true)
+		fe := garbage
+		in := append([]byte{}, b...)
+		ret, err := fe.SetBytesWide(in)
+		if err != nil || ret != &fe {
+			w.Fail("SetBytesWide/accept", fmt.Sprintf("SetBytesWide(%x) err=%v", b, err), cas())
+			return
+		}
+		if !bytes.Equal(in, b) {
+			w.Fail("SetBytesWide/modifies-input", fmt.Sprintf("SetBytesWide changed its input %x", b), cas())
+		}
+		// the same from the middle of a larger buffer
+		wb := bytes.Repeat([]byte{0xa5}, 80)
+		copy(wb[9:73], b)
+		fe2 := garbage
+		if _, err := fe2.SetBytesWide(wb[9:73]); err != nil {
+			w.Fail("SetBytesWide/sub-slice", err.Error(), cas())
+		}
+		chk{w, s}.sameAs("SetBytesWide/sub-slice", &fe2, &fe, cas)
+		if !bytes.Equal(wb[9:73], b) || !bytes.Equal(wb[:9], bytes.Repeat([]byte{0xa5}, 9)) || !bytes.Equal(wb[73:], bytes.Repeat([]byte{0xa5}, 7)) {
+			w.Fail("SetBytesWide/guard", "SetBytesWide modified the caller's buffer", cas())
+		}
 		chk{w, s}.val("SetBytesWide", &fe, new(big.Int).Mod(ref.FromLE(b), P), bReduced, cas)
 		if i%499 == 0 {
 			w.Sample(map[string]string{"op": "SetBytesWide", "bytes": mc.Hex(b)})
 		}
 	})
 
-	// --- lengths: every length 0..70 for the three byte-slice routines (error iff wrong length, as the code documents)
-	c.Par("phi-lengths", 71, func(w *mc.W, l int) {
+	// --- lengths: every length 0..300 for the three byte-slice routines (error iff wrong length, as the code documents)
+	c.Par("phi-lengths", 301, func(w *mc.W, l int) {
 		b := make([]byte, l)
 		var fe field.Element
 		w.Eval("lengths", l != 32 && l != 64)
